@@ -74,6 +74,25 @@ def inflight_cases(rng):
                 if gi != want_items:
                     fails.append(('items_not_transparent', {'kind': nm, 'n': n, 'workers': w, 'buffer': b, 'delivered': gi, 'expected': want_items}))
                     break
+        if keyed and rng.random() < 0.6:
+            # the keyed view of a parallel map over a per-epoch reshuffle: every epoch delivers the (key, example)
+            # pairs of the equally seeded sequential pipeline (one pass over the input per epoch, keys and examples
+            # from the same pass)
+            seed2 = rng.randrange(1 << 30)
+
+            def mkbase():
+                return lazy_dataset.new(src).shuffle(reshuffle=True, rng=np.random.RandomState(seed2))
+            par, seq = mkbase().map(f, num_workers=w, buffer_size=b), mkbase().map(f)
+            for epoch in range(3):
+                try:
+                    gp = list(par.items())
+                except Exception as e:  # noqa
+                    gp = repr(e)[:120]
+                gs = list(seq.items())
+                if gp != gs:
+                    fails.append(('items_not_transparent', {'kind': 'map(f, num_workers).items() over a per-epoch reshuffle', 'n': n, 'workers': w, 'buffer': b,
+                                                            'seed': seed2, 'epoch': epoch, 'delivered': repr(gp), 'expected': repr(gs)}))
+                    break
         for i, g in enumerate(got):
             ok = (sorted(g, key=repr) == want) if reshuffle else (g == [f(x) for x in vals])
             if not ok:
